@@ -675,6 +675,51 @@ var EvoEdits = []EvoEdit{
 	}},
 }
 
+// ChangeTypeArgBetweenAliases is the two-sided form of change-type-argument-via-alias: at one slot that holds
+// an inline instantiation G<X>, the old model gets a closed alias `OldAlias: G<X>` (the same model, spelled
+// through an alias) and the new model a closed alias of another name with another argument, `ViaAlias: G<Y>`.
+// old and neu must be clones of each other. Net effect: "changing the type arguments to a generic type".
+func ChangeTypeArgBetweenAliases(t *rapid.T, old, neu *Package) (string, bool) {
+	envN := NewEnv(neu)
+	r := envN.Reachable(neu.Protocols()...)
+	so, sn := Slots(old), Slots(neu)
+	if len(so) != len(sn) {
+		return "", false
+	}
+	var c []int
+	for i, s := range sn {
+		x := s.Get()
+		inReach := s.Def.Kind == DProtocol || r[neu.Namespace+"."+s.Def.Name]
+		if !inReach || x.Kind != KRef || len(x.Args) == 0 || len(s.Def.TypeParams) > 0 {
+			continue
+		}
+		if s.Ctx != "" && s.Ctx != "stream" && s.Ctx != "vector" && s.Ctx != "optional" {
+			continue
+		}
+		if x.Args[0] != nil && x.Args[0].Kind == KPrim {
+			c = append(c, i)
+		}
+	}
+	if len(c) == 0 {
+		return "", false
+	}
+	i := c[pickInt(t, "betweenAliasesAt", len(c))]
+	inst := sn[i].Get().Clone()
+	oldInst := so[i].Get().Clone()
+	prev := inst.Args[0].Prim
+	nw := "complexfloat64"
+	if prev == nw {
+		nw = "date"
+	}
+	inst.Args[0] = Prim(nw)
+	if !envN.TypeOK(inst) {
+		return "", false
+	}
+	so[i].Set(addAlias(old, "OldAlias", oldInst))
+	sn[i].Set(addAlias(neu, "ViaAlias", inst))
+	return sn[i].Path, true
+}
+
 func maxInt(a, b int) int {
 	if a > b {
 		return a
